@@ -4,11 +4,11 @@ import json, os, re, shutil, subprocess, sys
 VER = os.path.dirname(os.path.dirname(os.path.abspath(__file__)))
 props = {json.loads(l)['id']: json.loads(l) for l in open(os.path.join(VER, 'properties.jsonl'))}
 ROUND2 = '--round2' in sys.argv
-ROUND7 = '--round7' in sys.argv or '--round9' in sys.argv
+ROUND7 = '--round7' in sys.argv or '--round9' in sys.argv or '--round11' in sys.argv
 ROUND3 = '--round3' in sys.argv or '--round4' in sys.argv or '--round6' in sys.argv or ROUND7
 ROUND4 = '--round4' in sys.argv or '--round6' in sys.argv or ROUND7
 ROUND6 = '--round6' in sys.argv or ROUND7
-RN = '9' if '--round9' in sys.argv else ('7' if ROUND7 else '6')
+RN = '11' if '--round11' in sys.argv else '9' if '--round9' in sys.argv else ('7' if ROUND7 else '6')
 R3 = {'a': 'C20', 'b': 'C11', 'c': 'C18', 'd': 'C02'}
 args = [a for a in sys.argv[1:] if not a.startswith('--')]
 for arg in args:
